@@ -144,8 +144,11 @@ type seqStats struct {
 	non2xxContinue                                                  bool
 	gapsChecked, waitsChecked                                       int
 	ammoChecked, ammoPauseDiffers, ammoArgDiffers                   bool
-	size                                                            map[string]bool // classes of judged size assertions
-	rendered                                                        map[string]bool // "scenario/request" uses that were rendered and sent
+	size                                                            map[string]bool            // classes of judged size assertions
+	rendered                                                        map[string]bool            // "scenario/request" uses that were rendered and sent
+	head                                                            map[string]bool            // classes of answered HEAD steps
+	sharedNext                                                      map[string]map[string]bool // [next] path of a request listed by several scenarios -> scenarios that took a row
+	sharedNextWrapped                                               bool
 }
 
 // checkAmmo compares the scenario the provider handed to the gun for one invocation
@@ -231,7 +234,7 @@ func checkSeq(c Case, o *vf.Obs) error {
 		}
 		return toResp(c.reply(def, seq), c.faultAt(seq).Keep, c.chunkAt(seq))
 	}
-	res, err := runProgram(prog, shots, 1, c.KeepAlive, script)
+	res, err := runProgram(prog, shots, 1, c.KeepAlive, c.AnswLog, script)
 	if err != nil {
 		return err
 	}
@@ -242,7 +245,8 @@ func checkSeq(c Case, o *vf.Obs) error {
 	for _, sc := range prog.Scenarios {
 		entryOf[sc.Expand()[0].Name] = sc.Name
 	}
-	st := seqStats{fails: map[string]bool{}, failPos: map[string]bool{}, size: map[string]bool{}, rendered: map[string]bool{}}
+	st := seqStats{fails: map[string]bool{}, failPos: map[string]bool{}, size: map[string]bool{}, rendered: map[string]bool{},
+		head: map[string]bool{}, sharedNext: map[string]map[string]bool{}}
 	it := si.New(prog)
 	ri, sx := 0, 0
 	counts := map[string]int{}
@@ -267,6 +271,7 @@ func checkSeq(c Case, o *vf.Obs) error {
 		sc := prog.Scenario(scn)
 		in := it.Begin(scn)
 		invBase := lastAt
+		headPassed := false // a HEAD step of this invocation whose (absent) body the gun read under an announced Content-Length passed
 		// one instance: the inv-th Acquire is the ammo of the inv-th invocation
 		if inv >= len(res.Ammo) {
 			return fail("invocation %d (scenario %s) reached the target but the provider handed out only %d ammo", inv, scn, len(res.Ammo))
@@ -285,6 +290,13 @@ func checkSeq(c Case, o *vf.Obs) error {
 				st.nextUsed = true
 				if u.Seq != u.Row {
 					st.nextWrapped = true
+				}
+				if u.Shared {
+					if st.sharedNext[u.Path] == nil {
+						st.sharedNext[u.Path] = map[string]bool{}
+					}
+					st.sharedNext[u.Path][scn] = true
+					st.sharedNextWrapped = st.sharedNextWrapped || u.Seq != u.Row
 				}
 			}
 			pos := "middle"
@@ -339,7 +351,11 @@ func checkSeq(c Case, o *vf.Obs) error {
 			}
 			st.noValue = st.noValue || s.Req.NoValue
 			rep := c.reply(s.Def, ri)
-			chunked := c.chunkAt(ri) > 0 && !rep.Closed && !rep.Cut
+			chunked := c.chunkAt(ri) > 0 && !rep.Closed && !rep.Cut && rep.Announced == 0
+			headCL := rep.Announced > 0 && c.chunkAt(ri) == 0 // answer to HEAD that announces a Content-Length > 0
+			if headPassed {
+				st.head["step_after_head_step_body_read_content_length_announced"] = true
+			}
 			lastAt = rec.At
 			ri++
 			out := in.Deliver(rep)
@@ -366,6 +382,9 @@ func checkSeq(c Case, o *vf.Obs) error {
 					how := "content_length"
 					if chunked {
 						how = "chunked"
+					}
+					if rep.Announced > 0 {
+						how = "head"
 					}
 					op := map[string]string{"<": "lt", ">": "gt", "=": "eq"}[p.Size.Op]
 					for _, k := range []string{kind, kind + "_" + verdict, kind + "_" + how, kind + "_" + how + "_" + verdict, kind + "_" + how + "_" + op + "_" + verdict} {
@@ -418,6 +437,17 @@ func checkSeq(c Case, o *vf.Obs) error {
 			}
 			if out.Status < 200 || out.Status > 299 {
 				st.non2xxContinue = true
+			}
+			if rep.Announced > 0 {
+				// a HEAD step that did not fail (the sample says so too). Did the gun read its body, and what was announced?
+				posts, read := len(s.Def.Posts) > 0, len(s.Def.Posts) > 0 || c.AnswLog
+				st.head["head_step"] = true
+				st.head["head_step_no_content_length"] = st.head["head_step_no_content_length"] || !headCL
+				st.head["head_step_body_not_read"] = st.head["head_step_body_not_read"] || !read
+				st.head["head_step_body_read_content_length_announced"] = st.head["head_step_body_read_content_length_announced"] || (read && headCL)
+				st.head["head_step_with_postprocessors_content_length_announced"] = st.head["head_step_with_postprocessors_content_length_announced"] || (posts && headCL)
+				st.head["head_step_without_postprocessors_answlog_content_length_announced"] = st.head["head_step_without_postprocessors_answlog_content_length_announced"] || (!posts && read && headCL)
+				headPassed = headPassed || (read && headCL)
 			}
 			if s.Step.SleepMs > 0 {
 				pending = append(pending, bound{rec.At, s.Step.SleepMs, fmt.Sprintf("request #%d", ri-1)})
@@ -518,6 +548,16 @@ func checkSeq(c Case, o *vf.Obs) error {
 	for k := range st.size {
 		o.Class(k)
 	}
+	for k, v := range st.head {
+		o.ClassIf(v, k)
+	}
+	o.ClassIf(c.AnswLog, "answlog_enabled")
+	sharedNext := false
+	for _, by := range st.sharedNext {
+		sharedNext = sharedNext || len(by) >= 2
+	}
+	o.ClassIf(sharedNext, "next_in_request_shared_by_scenarios")
+	o.ClassIf(sharedNext && st.sharedNextWrapped, "next_in_request_shared_by_scenarios_wrapped")
 	o.ClassIf(len(c.Chunked) > 0, "target_answers_chunked_in_part")
 	for k := range st.failPos {
 		o.Class("fail_at_" + k + "_step")
@@ -597,7 +637,7 @@ func checkConcurrent(c Case, o *vf.Obs) error {
 		fresh, num := freshOf(recKey(def, r))
 		return toResp(si.MakeReply(def, fresh+c.Salt, num, si.FaultNone, 0), 0, c.chunkAt(seq))
 	}
-	res, err := runProgram(prog, shots, c.Instances, c.KeepAlive, script)
+	res, err := runProgram(prog, shots, c.Instances, c.KeepAlive, c.AnswLog, script)
 	if err != nil {
 		return err
 	}
@@ -606,12 +646,17 @@ func checkConcurrent(c Case, o *vf.Obs) error {
 	}
 	// expectation: every scenario runs cycles x weight/gcd times; its k-th invocation takes row k of the
 	// source its first step indexes with [next] (programs of this test take one row per invocation), so the
-	// multiset of requests does not depend on how the instances interleave
+	// multiset of requests does not depend on how the instances interleave. A request that several scenarios list may
+	// index a source of its own with [next]: its executions, whichever scenario and instance runs them, take rows
+	// 0,1,2,... of it; such a request shows nothing else of its invocation and no other step refers to it (the
+	// generator isolates it), so the multiset does not depend on which invocation got which row either
 	wantReq := map[string]int{}
 	wantSamp := map[string]int{}
 	it := si.New(prog)
 	per, _ := prog.Cycle()
 	nextUsed, wrapped, flow := false, false, false
+	sharedNext := map[string]map[string]bool{} // [next] path of a request listed by several scenarios -> scenarios that took a row
+	head := false
 	total := 0
 	for _, sc := range prog.Scenarios {
 		for k := 0; k < per[sc.Name]*c.Cycles; k++ {
@@ -620,7 +665,14 @@ func checkConcurrent(c Case, o *vf.Obs) error {
 				for _, u := range s.Next {
 					nextUsed = true
 					wrapped = wrapped || u.Seq != u.Row
+					if u.Shared {
+						if sharedNext[u.Path] == nil {
+							sharedNext[u.Path] = map[string]bool{}
+						}
+						sharedNext[u.Path][sc.Name] = true
+					}
 				}
+				head = head || s.Def.Method == "HEAD"
 				if s.PreFail != "" {
 					wantSamp["failed"]++
 					break
@@ -668,7 +720,7 @@ func checkConcurrent(c Case, o *vf.Obs) error {
 		if len(diffs) > 8 {
 			diffs = diffs[:8]
 		}
-		return fail("with %d instances and %d shots the multiset of requests at the target differs from the reference ([next] must hand out rows 0..M-1 mod R per scenario, whatever the interleaving):\n%s",
+		return fail("with %d instances and %d shots the multiset of requests at the target differs from the reference ([next] must hand out rows 0..M-1 mod R per scenario - to a request that several scenarios list: over all of them -, whatever the interleaving):\n%s",
 			c.Instances, shots, strings.Join(diffs, "\n"))
 	}
 	gotSamp := map[string]int{}
@@ -703,6 +755,14 @@ func checkConcurrent(c Case, o *vf.Obs) error {
 	o.ClassIf(flow, "flow_captured_value")
 	o.ClassIf(len(prog.Scenarios) >= 2, "scenarios_ge_2")
 	o.ClassIf(c.KeepAlive, "keep_alive")
+	o.ClassIf(c.AnswLog, "answlog_enabled")
+	o.ClassIf(head, "head_step")
+	shared := false
+	for _, by := range sharedNext {
+		shared = shared || len(by) >= 2
+	}
+	o.ClassIf(shared, "next_in_request_shared_by_scenarios")
+	o.ClassIf(shared && c.Instances >= 2, "next_in_request_shared_by_scenarios_instances_ge_2")
 	if nextUsed && (c.Instances >= 2 || wrapped) {
 		o.NonTrivial()
 	}
